@@ -60,3 +60,12 @@ Theorem C12_eq_view : forall xs ys,
   v_eq_view xs (byte_len (concat xs)) ys (byte_len (concat ys)) = text_eqb (concat xs) (concat ys).
 Proof. exact v_eq_view_spec. Qed.
 Print Assumptions C12_eq_view.
+
+(* slices given by open-ended ranges *)
+Theorem C12_slice_open_ended : forall s e a b, s <= e ->
+  v_slice_opt s e None None = Ok (s, e) /\
+  v_slice_opt s e (Some a) None = v_slice s e a (e - s) /\
+  v_slice_opt s e None (Some b) = v_slice s e 0 b /\
+  v_slice_opt s e (Some a) (Some b) = v_slice s e a b.
+Proof. exact v_slice_opt_spec. Qed.
+Print Assumptions C12_slice_open_ended.
